@@ -19,6 +19,8 @@ import tempfile
 from pathlib import Path
 
 sys._called_from_test = True
+# coroutines of abandoned schedules are finalised after their loop is closed: keep the noise out of the check's output
+sys.unraisablehook = lambda *a, **k: None
 logging.disable(logging.CRITICAL)
 
 import experimaestro.connectors as connectors  # noqa: E402
